@@ -155,3 +155,141 @@ class NoResponseTask(Task):
         I.ob(f"{P}/aborts-exactly-when-nobody-has-aborted-yet-and-the-association-is-still-established",
              len(aborts) == (1 if want else 0), detail=f"peer={g['a-abort']} provider={g['a-p-abort']} established={est}: {len(aborts)} abort()")
         I.ob(f"{P}/changes-nothing-itself", not [e for e in I.trace if e.name == "setattr" and e.args[0] == "assoc"])
+
+
+AC = "pynetdicom.acse"
+NREL = f"{AC}:ACSE.negotiate_release"
+
+
+class ReleaseLoop:
+    pass
+
+
+def _release_loop(task):
+    from pyvc.interp import LoopSpec
+
+    class _L(LoopSpec):
+        def havoc(self, I, fr):
+            g = I.ghost
+            g["mark"] = len(I.trace)
+            g["in_loop"] = True
+            # whether a release collision was seen in an earlier iteration: arbitrary at the head of this one
+            c = I.choose(2, "a collision was seen earlier") == 1
+            g["collision_before"] = c
+            if "is_collision" in fr.locals:
+                fr.locals["is_collision"] = c
+            else:
+                raise Unsupported("negotiate_release: the collision flag is not the local 'is_collision'")
+
+        def after_body(self, I, fr):
+            task.iteration_done(I, "continues", fr.locals.get("is_collision"))
+    return _L()
+
+
+class NegotiateReleaseTask(Task):
+    """ACSE.negotiate_release (the local user's release) on its real body: the request is sent once, then ONE arbitrary iteration
+    of the wait loop, whatever the earlier iterations saw.
+      C08  every wait is one receive_pdu(wait=True, timeout=acse_timeout): bounded by the configured ACSE timeout; when it runs
+           out the association is aborted (A-ABORT source 2 sent, marked aborted, killed) - the call returns;
+      C27  a terminal outcome is reported exactly once per call: EVT_ABORTED (timeout, or the peer/provider aborted) or
+           EVT_RELEASED (release response), each with the matching flags, followed by kill(); an iteration that goes on waiting
+           (release collision) reports nothing;
+      C07  collision (PS3.8 7.2.2.7) - the peer's release request arriving while the local user is releasing too: the requestor answers the peer's request at once and keeps waiting; the acceptor answers only
+           after it received the response to its own request."""
+    name = "ACSE.negotiate_release"
+    functions = [NREL]
+    shard = False
+
+    def config(self, repo):
+        import ast
+        c = Config()
+        c.ob_prefix = "C08/"
+        fi = repo.func(NREL)
+        loops = [n for n in ast.walk(fi.node) if isinstance(n, (ast.For, ast.While))]
+        if len(loops) != 1 or not isinstance(loops[0], ast.While):
+            raise Unsupported("negotiate_release: expected exactly one while loop")
+        c.loop_specs[(NREL, 0)] = _release_loop(self)
+        c.summaries["pynetdicom.events:trigger"] = _trigger
+        c.summaries[f"{AC}:ACSE.send_release"] = lambda I, a, k: I.trace.append(Ev("send_release", (k.get("is_response", a[1] if len(a) > 1 else False),)))
+        c.summaries[f"{AC}:ACSE.send_abort"] = lambda I, a, k: I.trace.append(Ev("send_abort", tuple(a[1:])))
+
+        def env_call(I, env, method, args, kw):
+            g = I.ghost
+            if env.path == "acse.dul" and method == "receive_pdu":
+                wait = kw.get("wait", args[0] if args else False)
+                tmo = kw.get("timeout", args[1] if len(args) > 1 else None)
+                I.trace.append(Ev("receive_pdu", (wait, tmo)))
+                kinds = ["none", "a-abort", "a-p-abort", "release-rq", "release-rp"]
+                k = kinds[I.choose(len(kinds), "what arrives")]
+                g["arrives"] = k
+                if k == "none":
+                    return None
+                if k == "a-abort":
+                    return Obj(I.repo.cls("pynetdicom.pdu_primitives:A_ABORT"))
+                if k == "a-p-abort":
+                    return Obj(I.repo.cls("pynetdicom.pdu_primitives:A_P_ABORT"))
+                o = Obj(I.repo.cls("pynetdicom.pdu_primitives:A_RELEASE"))
+                o.fields["_result"] = None if k == "release-rq" else "affirmative"
+                o.fields["_reason"] = "normal"
+                return o
+            if env.path == "acse.assoc" and method == "kill":
+                I.trace.append(Ev("kill"))
+                return None
+            return NotImplemented
+        c.env_call = env_call
+        return c
+
+    def iteration_done(self, I, how, collision_after=None):
+        g = I.ghost
+        tr = I.trace[g.get("mark", 0):]
+        P8, P27, P7 = f"C08/{NREL}", f"C27/{NREL}", f"C07/{NREL}"
+        arrives = g.get("arrives")
+        names = [e.name for e in tr if e.name in ("receive_pdu", "send_release", "send_abort", "evt", "kill")]
+        waits = [e for e in tr if e.name == "receive_pdu"]
+        I.ob(f"{P8}/each-iteration-waits-once-and-for-at-most-the-ACSE-timeout",
+             len(waits) == 1 and waits[0].args[0] is True and waits[0].args[1] is g["acse_timeout"], detail=repr([e.args for e in waits]))
+        flags = {e.args[1]: e.args[2] for e in tr if e.name == "setattr" and e.args[0] == "acse.assoc"}
+        evs = [e.args[0] for e in tr if e.name == "evt"]
+        kills = [e for e in tr if e.name == "kill"]
+        sends = [e.args for e in tr if e.name in ("send_release", "send_abort")]
+        req, coll = g["is_requestor"], g["collision_before"]
+        if arrives == "none":
+            I.ob(f"{P8}/when-the-ACSE-timeout-runs-out-the-association-is-aborted-and-the-call-returns",
+                 how == "returned" and [e.name for e in tr if e.name in ("send_release", "send_abort")] == ["send_abort"] and sends == [(2,)]
+                 and flags.get("is_aborted") is True and flags.get("is_established") is False and len(kills) == 1, detail=f"{how}: {names} {flags}")
+        if arrives in ("none", "a-abort", "a-p-abort"):
+            I.ob(f"{P27}/an-abort-or-a-timeout-during-release-is-reported-once-as-EVT_ABORTED-then-the-association-is-killed",
+                 how == "returned" and evs == ["EVT_ABORTED"] and flags.get("is_aborted") is True and flags.get("is_established") is False
+                 and "is_released" not in flags and len(kills) == 1 and names.index("evt") < names.index("kill")
+                 and (arrives == "none" or not sends), detail=f"{how}: {names} {flags}")
+        elif arrives == "release-rp":
+            want_send = [(True,)] if (not req and coll) else []
+            I.ob(f"{P27}/the-release-response-ends-the-call-released:EVT_RELEASED-once-then-kill",
+                 how == "returned" and evs == ["EVT_RELEASED"] and flags.get("is_released") is True and flags.get("is_established") is False
+                 and "is_aborted" not in flags and len(kills) == 1 and names.index("evt") < names.index("kill"), detail=f"{how}: {names} {flags}")
+            I.ob(f"{P7}/collision:the-acceptor-answers-the-peer's-request-only-after-the-response-to-its-own-arrived", sends == want_send,
+                 detail=f"requestor={req} collision={coll}: {sends}")
+        elif arrives == "release-rq":
+            I.ob(f"{P27}/a-release-collision-reports-nothing-and-keeps-waiting", how == "continues" and not evs and not kills and not flags
+                 and I.as_bool(collision_after) is True, detail=f"{how}: {names} {flags} is_collision={collision_after!r}")
+            I.ob(f"{P7}/collision:the-requestor-answers-the-peer's-request-at-once-the-acceptor-not-yet", sends == ([(True,)] if req else []),
+                 detail=f"requestor={req}: {sends}")
+
+    def body(self, I):
+        g = I.ghost
+        me = Env("acse", cls=I.repo.cls(f"{AC}:ACSE"))
+        assoc, dul = Env("acse.assoc"), Env("acse.dul")
+        me.attrs.update(_assoc=assoc, assoc=assoc, dul=dul)
+        g["is_requestor"] = I.choose(2, "local side") == 0
+        assoc.attrs.update(is_requestor=g["is_requestor"], is_acceptor=not g["is_requestor"])
+        g["acse_timeout"] = I.fresh("real", "acse_timeout")
+        me.attrs["acse_timeout"] = g["acse_timeout"]
+        assoc.attrs["acse_timeout"] = g["acse_timeout"]
+        kind, val = I.run_function(I.repo.func(NREL), [me])
+        I.ob(f"C08/{NREL}/no-exception", kind == "return", detail=f"{kind}:{val!r}")
+        pre = I.trace[:g.get("mark", len(I.trace))]
+        I.ob(f"C08/{NREL}/the-release-request-is-sent-exactly-once-before-waiting",
+             [e.args for e in pre if e.name == "send_release"] == [(False,)] and not [e for e in pre if e.name in ("receive_pdu", "evt", "kill")],
+             detail=repr([e.name for e in pre]))
+        if kind == "return" and g.get("in_loop"):
+            self.iteration_done(I, "returned")
